@@ -9,7 +9,7 @@ import numpy as np
 
 from ..common import MachineryError, frac, write_cfg
 
-INVS = ['LoopInv', 'FindSpanOK', 'QueriesOK', 'RefineOK', 'EqOK', 'DerivOK', 'MKSmallOK', 'SweepOK', 'EmitOut']
+INVS = ['LoopInv', 'AsProved', 'FindSpanOK', 'QueriesOK', 'RefineOK', 'EqOK', 'DerivOK', 'MKSmallOK', 'SweepOK', 'EmitOut']
 KNOWN_N = [49, 98, 103, 107, 196, 197, 206]
 NIV = 12
 TOL = 1e-12
@@ -71,6 +71,7 @@ def real_kv(t, sc, p, shift=0.0, scale=1.0):
 
 NONDYADIC = [(0.1, 0.2), (1.0 / 3, 2.0 / 3), (0.3, 1.3), (0.9, 1.0), (-0.7, 0.3), (2.5, 7.1)]
 AFFINE = [(0.0, 1.0), (-1.5, 0.5), (3.0, 2.0)]     # dyadic: exact in binary floating point
+DERIV_AFFINE = [(0.0, 1.0), (16384.0, 0.015625), (-1048576.0, 0.125)]
 
 
 def replay_findspan(ctx, tally, r):
@@ -163,6 +164,39 @@ def replay_queries(ctx, tally, r):
         tally.add('exception %s KnotVector queries' % type(ex).__name__, {'case': case, 'error': repr(ex)})
 
 
+def kv_consistent(kv):
+    """queries of a KnotVector object against their declarative meaning recomputed from kv.kv alone (C19: mesh, support,
+    span-index and mesh-support queries are mutually consistent); returns the name of the first inconsistent query"""
+    t = np.asarray(kv.kv, dtype=float)
+    p = int(kv.p)
+    mesh = np.unique(t)
+    if np.asarray(kv.mesh).tolist() != mesh.tolist():
+        return 'mesh'
+    if int(kv.numspans) != len(mesh) - 1:
+        return 'numspans'
+    spans = [i for i in range(len(t) - 1) if t[i] < t[i + 1]]
+    if np.asarray(kv.mesh_span_indices()).tolist() != spans or len(spans) != int(kv.numspans):
+        return 'mesh_span_indices'
+    nd = len(t) - p - 1
+    if int(kv.numdofs) != nd:
+        return 'numdofs'
+    k2m = np.searchsorted(mesh, t)
+    msi = [[int(k2m[j]), int(k2m[j + p + 1])] for j in range(nd)]
+    if np.asarray(kv.mesh_support_idx_all()).tolist() != msi:
+        return 'mesh_support_idx_all'
+    for j in range(nd):
+        if [int(x) for x in kv.mesh_support_idx(j)] != msi[j]:
+            return 'mesh_support_idx'
+        if [float(x) for x in kv.support(j)] != [t[j], t[j + p + 1]]:
+            return 'support(j)'
+    for i in spans:
+        if p <= i < len(t) - 1 - p:
+            mid = (t[i] + t[i + 1]) / 2
+            if int(kv.findspan(mid)) != i or int(kv.findspan(t[i])) != i:
+                return 'findspan'
+    return None
+
+
 def replay_refine(ctx, tally, r):
     sc, p = r['sc'], r['p']
     case = {k: r[k] for k in ('p', 't', 'sc', 'uniform', 'new')}
@@ -170,6 +204,10 @@ def replay_refine(ctx, tally, r):
              sample=case if _h(r['t'], r['new']) % 499 == 0 else None)
     try:
         kv = real_kv(r['t'], sc, p)
+        # an adaptive loop queries a knot vector before it refines it: every other case does so (caches filled)
+        queried = _h(r['t'], r['new'], 'q') % 2 == 0
+        if queried:
+            kv.mesh, kv.numspans, kv.mesh_span_indices(), kv.mesh_support_idx_all()
         if r['uniform']:
             kv2 = kv.refine()
         else:
@@ -184,6 +222,13 @@ def replay_refine(ctx, tally, r):
                       {'case': case, 'observed': np.asarray(kv2.kv).tolist(), 'expected': want})
         if np.asarray(kv.kv).tolist() != [x / sc for x in r['t']]:
             tally.add('KnotVector.refine modifies-original', {'case': case})
+        # the refined vector, its copy and the original answer every query consistently with their own knots
+        for nm, obj in (('refined', kv2), ('copy-of-refined', kv2.copy()), ('original-after-refine', kv)):
+            w = kv_consistent(obj)
+            if w:
+                tally.add('KnotVector.refine result-inconsistent query=%s object=%s parent-queried=%s' % (w, nm, queried),
+                          {'case': case, 'knots': np.asarray(obj.kv).tolist()})
+                break
     except Exception as ex:
         tally.add('exception %s KnotVector.refine' % type(ex).__name__, {'case': case, 'error': repr(ex)})
 
@@ -211,34 +256,44 @@ def replay_deriv(ctx, tally, r):
     case = {k: r[k] for k in ('p', 't', 'sc', 'fam')}
     ctx.case(('deriv', p, tuple(r['t']), r['fam']), nontrivial=len(set(r['t'])) > 2,
              sample=case if _h(r['t'], r['fam']) % 23 == 0 else None)
-    try:
-        kv = real_kv(r['t'], sc, p)
-        cs = np.array([float(frac(q)) for q in r['coeffs']])
-        s = spline.Spline(kv, cs)
-        d = s.derivative()
-        want = np.array([float(frac(q)) for q in r['dcoeffs']])
-        scale = max(1.0, float(np.abs(want).max(initial=0.0)))
-        if int(d.kv.p) != r['dp'] or np.asarray(d.kv.kv).tolist() != [x / sc for x in r['dt']]:
-            tally.add('Spline.derivative knot-vector', {'case': case, 'observed': [int(d.kv.p), np.asarray(d.kv.kv).tolist()],
-                                                        'expected': [r['dp'], r['dt']]})
-            return
-        if d.coeffs.shape != want.shape or np.abs(d.coeffs - want).max(initial=0.0) > 1e-11 * scale:
-            tally.add('Spline.derivative coefficients', {'case': case, 'observed': d.coeffs.tolist(),
-                                                         'expected': want.tolist()})
-        us = np.array([smp['u'] / sc for smp in r['samples']])
-        if len(us):
-            v = np.array([float(frac(smp['v'])) for smp in r['samples']])
-            dv = np.array([float(frac(smp['dv'])) for smp in r['samples']])
-            if np.abs(np.asarray(s.eval(us)) - v).max() > 1e-11 * max(1.0, np.abs(v).max()):
-                tally.add('Spline.eval values', {'case': case, 'observed': np.asarray(s.eval(us)).tolist(), 'expected': v.tolist()})
-            if np.abs(np.asarray(d.eval(us)) - dv).max() > 1e-10 * scale:
-                tally.add('Spline.derivative pointwise-values', {'case': case, 'observed': np.asarray(d.eval(us)).tolist(),
-                                                                 'expected': dv.tolist()})
-            if np.abs(np.asarray(s.deriv(us)) - dv).max() > 1e-10 * scale:
-                tally.add('Spline.deriv pointwise-values', {'case': case, 'observed': np.asarray(s.deriv(us)).tolist(),
-                                                            'expected': dv.tolist()})
-    except Exception as ex:
-        tally.add('exception %s Spline.derivative' % type(ex).__name__, {'case': case, 'error': repr(ex)})
+    # the case as emitted, and dyadic affine images of its knot vector x -> shift + scale * x (exact in binary floating
+    # point, far from the origin relative to the span width): the coefficients of the derivative scale by 1/scale,
+    # the values at the mapped points likewise -- a formula that cancels (differences of numbers of size |shift|)
+    # loses the digits here that it keeps on [0, 4]
+    for shift, scale_x in DERIV_AFFINE:
+        tag = '' if (shift, scale_x) == (0.0, 1.0) else ' far-from-origin'
+        try:
+            kv = real_kv(r['t'], sc, p, shift, scale_x)
+            cs = np.array([float(frac(q)) for q in r['coeffs']])
+            s = spline.Spline(kv, cs)
+            d = s.derivative()
+            want = np.array([float(frac(q)) for q in r['dcoeffs']]) / scale_x
+            scale = max(1.0, float(np.abs(want).max(initial=0.0)))
+            if int(d.kv.p) != r['dp'] or np.asarray(d.kv.kv).tolist() != [shift + scale_x * (x / sc) for x in r['dt']]:
+                tally.add('Spline.derivative knot-vector' + tag,
+                          {'case': case, 'affine': [shift, scale_x], 'observed': [int(d.kv.p), np.asarray(d.kv.kv).tolist()],
+                           'expected': [r['dp'], r['dt']]})
+                return
+            if d.coeffs.shape != want.shape or np.abs(d.coeffs - want).max(initial=0.0) > 1e-11 * scale:
+                tally.add('Spline.derivative coefficients' + tag,
+                          {'case': case, 'affine': [shift, scale_x], 'observed': d.coeffs.tolist(), 'expected': want.tolist()})
+            us = np.array([shift + scale_x * (smp['u'] / sc) for smp in r['samples']])
+            if len(us):
+                v = np.array([float(frac(smp['v'])) for smp in r['samples']])
+                dv = np.array([float(frac(smp['dv'])) for smp in r['samples']]) / scale_x
+                if np.abs(np.asarray(s.eval(us)) - v).max() > 1e-11 * max(1.0, np.abs(v).max()):
+                    tally.add('Spline.eval values' + tag, {'case': case, 'affine': [shift, scale_x],
+                                                           'observed': np.asarray(s.eval(us)).tolist(), 'expected': v.tolist()})
+                if np.abs(np.asarray(d.eval(us)) - dv).max() > 1e-10 * scale:
+                    tally.add('Spline.derivative pointwise-values' + tag,
+                              {'case': case, 'affine': [shift, scale_x], 'observed': np.asarray(d.eval(us)).tolist(),
+                               'expected': dv.tolist()})
+                if np.abs(np.asarray(s.deriv(us)) - dv).max() > 1e-10 * scale:
+                    tally.add('Spline.deriv pointwise-values' + tag,
+                              {'case': case, 'affine': [shift, scale_x], 'observed': np.asarray(s.deriv(us)).tolist(),
+                               'expected': dv.tolist()})
+        except Exception as ex:
+            tally.add('exception %s Spline.derivative' % type(ex).__name__, {'case': case, 'affine': [shift, scale_x], 'error': repr(ex)})
 
 
 def replay_mksmall(ctx, tally, r):
